@@ -130,6 +130,14 @@ func Pool() []Block {
 				N("POST").WithKids(N("201", "empty"), N("Description").WithBody("Posts it\nin two lines")),
 				N("PUT").WithKids(N("404").WithBody("{}")))
 		})},
+		// path parameters declared at two levels of one URL block, the method's own Path between
+		// parentheses
+		{Name: "H_pp", Kind: "http", Defines: []string{"path:/pp"}, Nodes: one(func() *Node {
+			return N("URL", "/pp/{a}/{b}/{c}").WithParen().WithKids(
+				N("Path").WithBody("{\n  \"a\": 1\n}"),
+				N("GET").WithParen().WithKids(N("Path").WithBody("{\n  \"b\": 2\n}"), N("200", "any")),
+				N("DELETE").WithParen().WithKids(N("204", "empty")))
+		})},
 		{Name: "H_tag", Kind: "http", Defines: []string{"path:/tagged"}, Needs: []string{"tag:@g"}, Nodes: one(func() *Node {
 			return N("DELETE", "/tagged").WithKids(N("Tags", "@g"), N("204", "empty"))
 		})},
